@@ -70,6 +70,19 @@ structure World where
   dead : List Hdr
   deriving Repr, Inhabited
 
+/-- answer of a state-changing request: `ok` with a payload (new handles, …), or an error -/
+inductive Ans
+  | ok (payload : String)
+  | err
+  | unsupported
+  deriving DecidableEq, Repr
+
+def Ans.show : Ans → String
+  | .ok "" => "ok"
+  | .ok p => "ok " ++ p
+  | .err => "err"
+  | .unsupported => "unsupported"
+
 /-- what the value layer needs from outside the tree model -/
 structure Env where
   /-- `validate_regex_k` -/
